@@ -139,6 +139,18 @@ def dataset(cases):
                 with DatasetFiller(ds, relative_path_from_split=Path("sub")) as f:
                     for i in range(c["n"]):
                         f.write_example(values={"a": np.frombuffer(content(c["width"], i + 100), np.uint8)}, split="train")
+            if c.get("merged_fillers"):
+                # several fillers that do not update the dataset themselves, one after the other into the same directory,
+                # merged by a single write_config (what the DatasetFiller docstring advises for several fillers)
+                from sedpack.io.dataset_filler import DatasetFiller
+                updates = []
+                for k in range(c["merged_fillers"]):
+                    df = DatasetFiller(ds, relative_path_from_split=Path("part"), auto_update_dataset=False)
+                    with df as f:
+                        for i in range(c["n"] + k):
+                            f.write_example(values={"a": np.frombuffer(content(c["width"], i + 200 + 50 * k), np.uint8)}, split="train")
+                    updates += df.get_updated_infos()
+                ds.write_config(updated_infos=updates)
             bad, nfiles, sizes = [], 0, []
             root = tmp / "d"
             ds2 = Dataset(root)
